@@ -29,6 +29,7 @@ def gen_cases(tier, seed):
                       "extra_param": bool(k % 4 == 2), "premode": [None, "sub-eval", "all-eval", None][k % 4],
                       "peek": bool(k % 5 == 1), "callback_leaves_eval": bool(k % 6 == 3), "list_loader": bool(k % 7 == 4),
                       "nested": bool(k % 3 == 0), "stale_grads": bool(k % 4 == 3),
+                      "refit": bool(k % 5 == 0), "raising_callback": bool(k % 4 == 1), "binary_logits": bool(k % 6 == 1),
                       "seed": int(rng.integers(2 ** 31))})
     return cases
 
@@ -46,8 +47,11 @@ def run_case(ns, ctx, c):
     mode = c["mode"]
     out_dim = 1 if mode == "binary" else K
     layers = [nn.Linear(F_, 6), nn.BatchNorm1d(6), nn.ReLU(), nn.Dropout(0.25), nn.Linear(6, out_dim)]
-    if mode == "binary":
+    if mode == "binary" and not c.get("binary_logits"):
         layers.append(nn.Sigmoid())
+    elif mode == "binary":
+        # a linear unit trained with a squared error on 0/1 labels: outputs are not confined to [0, 1]; the prediction is still "output > 0.5"
+        layers[-1].weight.data = layers[-1].weight.data * 8.0
     if c.get("nested"):
         # the stochastic / stateful layers sit two and three levels below the root
         layers = [layers[0], nn.Sequential(layers[1], layers[2], nn.Sequential(layers[3]))] + layers[4:]
@@ -60,7 +64,7 @@ def run_case(ns, ctx, c):
                 acc.append(s_)
                 descendants(s_, acc)
         return acc
-    crit = {"multi-class": nn.CrossEntropyLoss(), "binary": nn.BCELoss(), "categorical": nn.MSELoss()}[mode]
+    crit = {"multi-class": nn.CrossEntropyLoss(), "binary": nn.MSELoss() if c.get("binary_logits") else nn.BCELoss(), "categorical": nn.MSELoss()}[mode]
     offset = nn.Parameter(T(np.full((2,), 0.5, dtype=np.float32), requires_grad=True))       # a learnable tensor of the loss, not part of the model
     opt_params = model.parameters() + ([offset] if c.get("extra_param") else [])
     opt = getattr(ns.optim, c["opt"])(opt_params, lr=0.05)
@@ -204,6 +208,7 @@ def run_case(ns, ctx, c):
                     "counters": {"fit_runs": 1}}
         end_grad = grad_on()
         fit_events = list(events)
+        hist = {k_: list(v_) for k_, v_ in hist.items()}            # (a later fit may go on writing into the object that was returned)
         test_events = []
         test_out = None
         if c["test"]:
@@ -218,6 +223,36 @@ def run_case(ns, ctx, c):
                     viol.append(V("test:raises", f"Trainer.test raised {type(e).__name__}", error=str(e)[:200]))
             test_events = list(events)
             test_grad_after = grad_on()
+        refit = None
+        if c.get("refit"):
+            # the same Trainer is fitted again (more epochs, this time without validation): its history describes this call
+            del events[:]
+            E2 = 1 + c["epochs"] % 2
+            try:
+                h2 = tr.fit(train_loader, E2)
+                refit = (E2, {k_: list(v_) for k_, v_ in h2.items()})
+            except Exception as e:
+                viol.append(V("fit:raises:second-fit", f"a second fit on the same Trainer raised {type(e).__name__}", error=str(e)[:200]))
+        after_exception = None
+        if c.get("raising_callback") and c["val"]:
+            # a callback stops the run by raising during a validation pass; the caller catches it and goes on: gradient mode is what it was
+            class _Stop(Exception):
+                pass
+
+            def boom(*a_, **k_):
+                if not grad_on():                      # i.e. while the validation pass is running
+                    raise _Stop("stop requested by a callback")
+                return []
+            if ev is not None:
+                ev.epoch_callback = boom               # the evaluator's metric callback is evaluated inside the validation pass
+            kw_ = {"on_validation_epoch": boom}
+            try:
+                tr.fit(train_loader, 1, validation_loader=val_loader, **kw_)
+                after_exception = "no-exception"
+            except _Stop:
+                after_exception = grad_on()
+            except Exception as e:
+                after_exception = "other:" + type(e).__name__
     finally:
         ns.Tensor.backward = o_backward
         ns.tmod.gradient__ = True
@@ -370,6 +405,20 @@ def run_case(ns, ctx, c):
             yp, yt_ = test_out
             if len(yp) != len(yt_) or len(yt_) != (len(yt) // c["bs"]) * c["bs"]:
                 viol.append(V("test:sample-count", f"Trainer.test returned {len(yp)} predictions / {len(yt_)} labels for {(len(yt) // c['bs']) * c['bs']} batched samples"))
+    if refit is not None:
+        E2, h2 = refit
+        want2 = {"loss"} | ({"accuracy"} if c["evaluator"] else set()) | ({"f1"} if c["evaluator"] and c["extra_metric"] else set())
+        if set(h2.keys()) != want2:
+            viol.append(V("history:keys:second-fit", f"history of a second fit (no validation loader) has keys {sorted(h2.keys())}, expected {sorted(want2)}"))
+        for k_, v_ in h2.items():
+            if k_ in want2 and len(v_) != E2:
+                viol.append(V("history:entries-per-epoch:second-fit", f"history['{k_}'] of a second fit has {len(v_)} entries for {E2} epochs")); break
+    if after_exception is not None:
+        counters_extra = {"exception_in_validation_runs": 1}
+        if after_exception is False:
+            viol.append(V("grammar:gradient-mode-not-restored:after-exception-in-validation", "gradient tracking stayed disabled after an exception left a validation pass"))
+    else:
+        counters_extra = {}
     seen, vv = set(), []
     for v in viol:
         if v["sig"] not in seen:
@@ -379,7 +428,7 @@ def run_case(ns, ctx, c):
     kinds = {}
     for e in fit_events + test_events:
         kinds[e["kind"]] = kinds.get(e["kind"], 0) + 1
-    counters = {"fit_runs": 1, "trace_events": len(fit_events) + len(test_events)}
+    counters = dict({"fit_runs": 1, "trace_events": len(fit_events) + len(test_events), "second_fits": int(refit is not None)}, **counters_extra)
     for k_, v_ in kinds.items():
         counters["events:" + k_] = v_
     return {"key": json.dumps(cfg) if (E >= 2 or nb >= 2) else None, "viol": vv, "counters": counters,
